@@ -6,7 +6,9 @@
 //     consequences (score, disconnect, dials in both directions, expiry);
 //     three rate-limited procedures with their own limits (legal mixes over all of them across counter resets, one
 //     procedure over its limit right after an observed reset); multiconn_test.go: a peer with 2-3 simultaneous
-//     connections (after a ban none may remain);
+//     connections (after a ban none may remain); conc_test.go: concurrent traffic around the reset ticks;
+//     late_test.go: honest but slow responders - well-formed, solicited responses that arrive after the requester's
+//     timeout, retries or cancellation must leave every score at zero;
 // (c) sync_test.go: generated valid and invalid sync requests against the real consensus/sync handlers of a harness
 //     consensus node (an invalid request gets the sender banned, a valid one never changes its score).
 package c18
